@@ -52,6 +52,12 @@ impl<Res> InFlightRequests<Res> {
         self.request_data.is_empty()
     }
 
+    /// Number of pending deadline timers (verification accessor).
+    #[cfg(tarpc_verif)]
+    pub fn verif_timers_len(&self) -> usize {
+        self.deadlines.len()
+    }
+
     /// Starts a request, unless a request with the same ID is already in flight.
     pub fn insert_request(
         &mut self,
